@@ -389,6 +389,9 @@ def run(ck, F):
     # the flags a declaration was given are the flags it reports: a setter stores into the declaration itself
     import c05 as _c05
     _c05.setters_rule(ck, F, 'C02')
+    # an operand a node reports is the object it was given: no member of a node refers to storage of the call that built it
+    import history as _history
+    _history.call_storage_rule(ck, F, 'C02')
 
     # elements the client builds in place (tokens of a pragma, captures of a closure, designators of a using-declaration): no
     # factory stands between the client's arguments and the node, the constructor is the contract
